@@ -33,6 +33,22 @@ func TestCheck(t *testing.T) {
 			progs = append(progs, gengen.Program{Files: p.Files, Packages: 3, Instantiation: 9, Transitive: true, Composite: true})
 		}
 	}
+	for _, f := range drv.OpenFindings("C04") {
+		if f.Replay == "" {
+			continue
+		}
+		files := drv.ReadReplayDir(f.Replay)
+		delete(files, "DESCRIPTION.txt")
+		c := drv.NewCase("c04k_", files, false)
+		res := drv.RunBoth(c, drv.BuildOpts{}, [][]string{{}}, drv.NodeOpts{}, true)
+		if res.NatErr != nil {
+			drv.Infra("stored program of %s does not build natively: %v", f.ID, res.NatErr)
+		}
+		if res.JSBuildErr != nil || !res.JS[0].Same(res.Native[0], false) {
+			ev.Known(f)
+		}
+		c.Remove()
+	}
 	drv.Parallel(len(progs), func(i int) {
 		p := progs[i]
 		c := drv.NewCase("c04_", p.Files, true)
